@@ -11,8 +11,10 @@ EXPLANATION = (
     "different chunk size on one side only is a disagreement. R2: one default origin (0x3000) on both sides. R3: every write "
     "to the destination handle is enumerated: one 2-byte buffer for the origin on every path of the if-let, one 2-byte buffer "
     "per emitted word, nothing else - 2(n+1) bytes. R4: loader guards - odd length is an error that dominates the conversion; "
-    "an empty image and an image with orig + n + 1 > 0x10000 are error exits (C03.R1); both sources of a run converge on the "
-    "same from_raw. R5 (PANIC): closed panic ledger of the object-file path of run() and of from_raw."
+    "an empty image and an image with orig + n + 1 > 0x10000 are error exits (C03.R1); every branch that diverts a file away from "
+    "the load (in run() before from_raw, and inside from_raw) is classified into the closed set {no/unknown extension, debugger attached, "
+    "I/O error, odd length, empty, does not fit below 0x10000} - any other refusal rejects a loadable file; both sources of a run converge "
+    "on the same from_raw. R5 (PANIC): closed panic ledger of the object-file path of run() and of from_raw."
 )
 NOT_DECIDED = "behavioural equality of running the file vs. the source beyond R1-R4 and C03"
 
@@ -132,7 +134,7 @@ def run(ctx):
     ctx.finish_rule()
 
     # ------------------------------------------------------------------ R4
-    ctx.rule("C06.R4", "loader guards and convergence on one from_raw", floor=3)
+    ctx.rule("C06.R4", "loader guards (closed set of refusals) and convergence on one from_raw", floor=10)
     rems = [(b, s) for b, i, s in runf.assigns() if s["r"]["k"] == "bin" and s["r"]["op"] == "Rem"]
     ctx.instance(1)
     ok = len(rems) == 1 and const_int(rems[0][1]["r"]["b"]) == 2 and "len(" in expr_str(runf.expr(rems[0][1]["r"]["a"], 6))
@@ -154,6 +156,59 @@ def run(ctx):
     ctx.oblig(ok, {"odd length": "Err before any conversion"}, "len % 2 test dominates chunks_exact")
     if not ok:
         ctx.violation("alignment-guard", runf.file_line(), "an odd-length object file is not rejected before the bytes are paired into words")
+    # closed set of rejections: every branch that turns a file away before/inside from_raw is one of the documented reasons
+    from .c03 import _reaching
+    def diverting(fn, goals):
+        keep = set()
+        for g in goals:
+            keep |= _reaching(fn, g)
+        sm = fn.succ_map()
+        for b in sorted(keep):
+            t = fn.term(b)
+            if t["k"] == "switch" and any(x not in keep for x in sm[b]):
+                yield b, t
+    def has_call(e, pred):
+        return any(x[0] == "call" and pred(str(x[1])) for x in expr_walk(e))
+    def classify_run(e):
+        if e[0] == "discr" and has_call(e, lambda c: c.endswith("Path::extension")) and not has_call(e, lambda c: c.endswith("Try>::branch")):
+            return "no extension"
+        if e[0] == "call" and str(e[1]).endswith("PartialEq for str>::eq") and any(x[0] == "str" for x in expr_walk(e)):
+            return "extension dispatch"
+        if any(x[0] == "arg" and x[2] == "debugger_opts" for x in expr_walk(e)) and not has_call(e, lambda c: "len" in c.rsplit("::", 1)[-1]):
+            return "debugger on object file"
+        if e[0] == "discr" and has_call(e, lambda c: c.endswith("Try>::branch")) and has_call(e, lambda c: c.startswith("std::fs::") or "std::io::" in c):
+            return "i/o error"
+        if e[0] == "bin" and e[1] in ("Ne", "Eq") and any(x[0] == "bin" and x[1] == "Rem" and x[3] == ("const", 2) for x in expr_walk(e)):
+            return "odd length"
+        if (e[0] == "bin" and e[1] == "Eq" and ("const", 0) in (e[2], e[3]) and has_call(e, lambda c: c.endswith("::len"))) or (e[0] == "call" and str(e[1]).endswith("::is_empty")):
+            return "empty"
+        return None
+    def classify_from_raw(e):
+        if (e[0] == "bin" and e[1] == "Eq" and ("const", 0) in (e[2], e[3]) and has_call(e, lambda c: c.endswith("::len"))) or (e[0] == "call" and str(e[1]).endswith("::is_empty")):
+            return "empty"
+        if e[0] == "bin" and e[1] in ("Gt", "Ge", "Lt", "Le") and has_call(e, lambda c: c.endswith("::len")) and any(x[0] == "const" and isinstance(x[1], int) and x[1] >= 0xFFFF for x in expr_walk(e)):
+            return "does not fit below 0x10000"
+        return None
+    fr_f = ctx.fn(FROM_RAW)
+    goal_run = [b for b, t, c in runf.calls() if c == FROM_RAW]
+    ctx.need(len(goal_run) == 1, "from_raw call in run()")
+    seen_cls = {}
+    for fn_, goals, cls, tag in ((runf, goal_run, classify_run, "run"), (fr_f, [b for b in fr_f.live_blocks() if fr_f.term(b)["k"] == "return"], classify_from_raw, "from_raw")):
+        for b, t in diverting(fn_, goals):
+            e = fn_.expr(t["a"], 8, stop={"named"}) if tag == "from_raw" else fn_.expr(t["a"], 8)
+            k = cls(e)
+            ctx.instance(1)
+            ctx.oblig(k is not None, None)
+            if k is None:
+                ctx.violation("extra-rejection|%s" % tag, sp_file_line(t.get("sp")),
+                              "%s turns an object file away on `%s`; the loader may only refuse a missing/unknown extension, an attached debugger, an I/O error, "
+                              "an odd length, an empty file, or an image that does not fit below 0x10000" % (short(fn_.name), expr_str(e, 120)))
+            else:
+                seen_cls.setdefault(tag, []).append(k)
+    ok = sorted(seen_cls.get("from_raw", [])) == ["does not fit below 0x10000", "empty"] and "odd length" in seen_cls.get("run", [])
+    ctx.oblig(ok, {"rejections": {k: sorted(v) for k, v in seen_cls.items()}}, "closed set of documented refusals")
+    if not ok:
+        ctx.violation("rejection-set", runf.file_line(), "the loader's refusals are %s; expected the odd-length test in run() and exactly the empty and too-large tests in from_raw" % seen_cls)
     # convergence
     callers = set(ctx.cg.callers(FROM_RAW))
     ctx.instance(1)
